@@ -10,8 +10,11 @@
 (*   [k |-> "macro", n, np, body]  .macro n(p1..pnp) body .endm            *)
 (*   [k |-> "invoke", n, args]     n(arg1, ..)                             *)
 (*   [k |-> "repeat", cnt, body]   .repeat cnt body .endr                  *)
+(*   [k |-> "pstmt", i]            (in a macro body) the i-th argument as  *)
+(*                                 a whole statement                       *)
 (* Items may additionally be [k |-> "ref", n] (a define/equ name),         *)
-(* [k |-> "param", i] and [k |-> "sum", a, b] (a + b of two such items).   *)
+(* [k |-> "param", i], [k |-> "sum", a, b] (a + b of two such items) and,  *)
+(* as a macro argument, [k |-> "stmt", s]: the text of a statement.        *)
 (***************************************************************************)
 EXTENDS AsmData
 
@@ -48,6 +51,9 @@ ExpandSeq(prog, i, env, args, out) ==
            as == [j \in 1..Len(s.args) |-> Resolve(s.args[j], env.defs, args)] \o <<>>
            r == ExpandBody(m.body, env, as)
            o == out \o r.out
+       IN IF o = o THEN ExpandSeq(prog, i + 1, env, args, o) ELSE [env |-> env, out |-> o]
+    ELSE IF s.k = "pstmt" THEN
+       LET o == Append(out, ResolveStmt(args[s.i].s, env.defs, <<>>))
        IN IF o = o THEN ExpandSeq(prog, i + 1, env, args, o) ELSE [env |-> env, out |-> o]
     ELSE IF s.k = "repeat" THEN
        LET r == ExpandBody(s.body, env, args)
